@@ -25,7 +25,8 @@ Cells with site # "go" (dimension `site` of Caller.tla) run through wrapper chai
 directives (file names with backslashes, quotes, blanks, control characters, non-ASCII: LINE_SITES of
 checks/encoderlib.py); for them the decoded (file, line, function) must be exactly that of the frame.
 
-`python3 checks/c14.py gen-sites` regenerates harness/fam_caller_sites.go and harness/fam_caller_lines.go.
+`python3 checks/c14.py gen-sites [dir]` regenerates harness/fam_caller_sites.go and harness/fam_caller_lines.go (into dir when
+given: harness/ is shared, move the files in only when they build with the rest of the package).
 """
 import concurrent.futures
 import hashlib
@@ -45,12 +46,16 @@ from vlib import Undecided, read_ndjson, write_ndjson, edge_cover, parse_action 
 from tlagen import gen_mc  # noqa: E402
 
 INVARIANTS = ["TypeOK", "AttributionAtIssuer", "SkipMovesExactlyN", "FormatIndependent", "KindIndependent",
-              "InlineIndependent", "ViaIndependent", "SiteIndependent", "CallerSurvivesUserAttr", "WithinChain"]
+              "InlineIndependent", "ViaIndependent", "SiteIndependent", "RouteIndependent", "CallerSurvivesUserAttr", "WithinChain"]
 
 # named deviation of the specification -> known-finding key
-DEV_KEYS = {"BridgeIgnoresSkip": "ep:stdlog:skip-ignored", "CallerBeforeAttrs": "attr:caller:overrides-call-site"}
+DEV_KEYS = {"BridgeIgnoresSkip": "ep:stdlog:skip-ignored", "CallerBeforeAttrs": "attr:caller:overrides-call-site",
+            "BridgeFixedDepth": "ep:stdlog:fixed-depth", "AdapterFixedDepth": "ep:logslog:record-pc-ignored"}
+# witness runs: deviation -> (initial predicate of spec/Caller.tla, invariants of which at least one must fail)
+DEV_WITNESS = {"BridgeFixedDepth": ("InitBridge", {"AttributionAtIssuer"}), "AdapterFixedDepth": ("InitAdapter", {"AttributionAtIssuer", "RouteIndependent"})}
 
-CELL_FIELDS = ["ep", "fam", "fmt", "kind", "inl", "via", "skip", "other", "depth", "site", "ua"]
+CELL_FIELDS = ["ep", "fam", "fmt", "kind", "inl", "via", "skip", "other", "depth", "site", "ua", "route"]
+ROUTE_TEXT = {"mw1": "the adapter sits behind one other log/slog handler (middleware)", "mw2": "the adapter sits behind two other log/slog handlers (middleware)"}
 UA_TEXT = {"rec": "the record", "log": "the logger", "hdl": "the log/slog handler"}
 
 # entry points that also have call sites behind //line directives (= LineEPNames of spec/Caller.tla)
@@ -128,12 +133,13 @@ def cell_key(c):
 
 def describe(c):
     ua = c.get("ua", "none")
-    return "%s [%s, %s logger, %s wrappers, skip %d via %s%s, %d wrapper(s)%s%s]" % (
+    return "%s [%s, %s logger, %s wrappers, skip %d via %s%s, %d wrapper(s)%s%s%s]" % (
         c["ep"], c["fmt"], c["kind"], "inlinable" if c["inl"] else "noinline", c["skip"], c["via"],
         " (previous/parent skip %d)" % c["other"] if c["via"] in ("SetSet", "WithOver") else "", c["depth"],
         "" if c.get("site", "go") == "go" else ", frames behind //line directives: chain %s" % c["site"],
         "" if ua == "none" else ", %s carries %s keyed `caller`" % (
-            UA_TEXT[ua.split("-")[0]], "a group {file, line, function}" if ua.endswith("group") else "a plain attribute"))
+            UA_TEXT[ua.split("-")[0]], "a group {file, line, function}" if ua.endswith("group") else "a plain attribute"),
+        "" if c.get("route", "direct") == "direct" else ", " + ROUTE_TEXT.get(c["route"], c["route"]))
 
 
 def execute(ctx, consts, cells, tag):
@@ -192,6 +198,8 @@ def execute(ctx, consts, cells, tag):
             # a call site behind a //line directive: named after the class of its file name and the format
             report("site:%s:%s" % (site.split("/")[0], by_id[b["id"]]["fmt"]), b,
                    "(file name of the frames: %s; %d cells of this entry point diverge)" % (d.get("sitefile"), v["badn"].get(ep, 0)))
+        elif by_id[b["id"]].get("route", "direct") != "direct":
+            report("ep:%s:%s" % (ep, by_id[b["id"]]["route"]), b, "(%d cells of this entry point diverge)" % v["badn"].get(ep, 0))
         else:
             report("ep:" + ep, b, "(%d cells of this entry point diverge)" % v["badn"].get(ep, 0))
     seen_dev = set()
@@ -657,7 +665,7 @@ def run(ctx, replay):
             ctx.sample(dict(history=beh["steps"][:8]))
             return ctx.finish(rule="replay of one recorded history", exhaustive=False)
         consts = rp.get("consts", consts)
-        cells = [dict(dict(site="go", ua="none"), **dict(c, id=i)) for i, c in enumerate(rp["cells"])]
+        cells = [dict(dict(site="go", ua="none", route="direct"), **dict(c, id=i)) for i, c in enumerate(rp["cells"])]
         consts = dict(consts, LineSites=sorted(set(consts.get("LineSites", [])) | {c["site"] for c in cells if c["site"] != "go"}))
         rows, details, v = execute(ctx, consts, cells, "replay")
         ctx.traces += 1
@@ -706,6 +714,12 @@ def run(ctx, replay):
     uaeps = w.prints("uaeps")
     if len(uaeps) != 1 or sorted(uaeps[0]) != sorted(UA_EPS):
         raise Undecided("UAEPNames of the specification and UA_EPS of the worker generator differ")
+    termeps = w.prints("termeps")
+    if len(termeps) != 1 or sorted(termeps[0]) != sorted(cap.get("term_eps") or []) or set(termeps[0]) != TERM_EPS:
+        raise Undecided("TermEPNames of the specification and the terminating entry points of the worker / of this check differ")
+    routeeps = w.prints("routeeps")
+    if len(routeeps) != 1 or not ROUTE_ONLY_EPS <= set(routeeps[0]):
+        raise Undecided("RouteEPNames of the specification does not hold the entry points this check takes as sub-table only")
     if sorted(eps[0]) != sorted(cap["eps"]):
         raise Undecided("entry points of the specification and of the worker differ: %s" % sorted(set(eps[0]) ^ set(cap["eps"])))
     table = read_ndjson(cell_file)
@@ -727,6 +741,14 @@ def run(ctx, replay):
             if not ({"AttributionAtIssuer", "CallerSurvivesUserAttr"} & set(w2.invariant_violated)):
                 raise Undecided("witness run: no attribution invariant failed with %s enabled:\n%s" % (UA_DEV, w2.out[-2000:]))
             ctx.extra["witness_ua"] = "%s violated with Devs={%s} (expected)" % (",".join(sorted(w2.invariant_violated)), UA_DEV)
+            # non-vacuity of the front-end cells: counting a fixed number of frames instead of skipping package log by name /
+            # starting at the record's PC must break the attribution of some function of the front end / some route
+            for dev, (init, invs) in sorted(DEV_WITNESS.items()):
+                w3 = ctx.tlc("MC", "MC.cfg", files=mc_files(consts, [dev], init=init), name="caller-witness-" + dev, workers=2,
+                             allow_fail=True)
+                if not (invs & set(w3.invariant_violated)):
+                    raise Undecided("witness run: none of %s failed with %s enabled:\n%s" % (sorted(invs), dev, w3.out[-2000:]))
+                ctx.extra["witness_" + dev] = "%s violated with Devs={%s} (expected)" % (",".join(sorted(w3.invariant_violated)), dev)
             mc["r"] = ctx.model_check("MC", "MC.cfg", files=mc_files(consts, []), name="caller-mc", workers=8)
         except BaseException as ex:       # re-raised in the main thread
             mc["ex"] = ex
@@ -761,13 +783,23 @@ def run(ctx, replay):
                            "convention), chains whose frames sit behind //line directives: every file-name class the toolchain "
                            "accepts x 3 formats x skip 0..2 x depth skip..2; plus, for 8 entry points, cells in which the record, "
                            "the logger or the log/slog handler carries an attribute keyed `caller` - plain or group - x 3 formats x "
-                           "skip 0..2 x depth skip..2: a last-wins reader must still get the call site) is issued on the library and the recorded "
+                           "skip 0..2 x depth skip..2: a last-wins reader must still get the call site; plus the front-end sub-table: package log writing "
+                           "into the bridge, log.Fatal* / Logger.Fatal* (a process per cell), log/slog records that reach the adapter through "
+                           "log/slog.NewLogLogger, with a PC of the program's own (Handler.Handle), behind one or two middleware handlers) "
+                           "is issued on the library and the recorded "
                            "attribution validated by TLC; non-trivial = distinct cells with skip>0 or at least one wrapper; "
                            "(b) every edge of the TLC-explored machine of logger configuration (WithSkip/SetSkip on any live "
                            "logger, package-level forms, New/With... children, SetDefault, other configuration) plus seeded "
                            "random deeper histories is executed, after every step records are issued through every live logger "
                            "and the attributions validated by TLC; non-trivial = distinct graph edges + distinct random prefixes",
                       exhaustive=True)
+
+
+# entry points that end the process after the record was written (= TermEPNames of spec/Caller.tla) and entry points that
+# have cells in the route sub-table only (= NarrowEPNames)
+TERM_EPS = {p + v for p in ("stdlog.", "log.") for v in ("Fatal", "Fatalf", "Fatalln")}
+ROUTE_ONLY_EPS = {"logslog.Handle", "logslog.std.Print"} | TERM_EPS | {
+    "log." + v for v in ("Print", "Printf", "Println", "Output", "Panic", "Panicf", "Panicln", "Fatal", "Fatalf", "Fatalln")}
 
 
 def run_cells(ctx, consts, table, eps):
@@ -782,7 +814,13 @@ def run_cells(ctx, consts, table, eps):
     ctx.evaluations += len(cells)
     # non-trivial = distinct cells in which the attributed frame is not simply the innermost user
     # frame of a depth-0 chain: something had to be skipped exactly (skip > 0) or wrappers exist
-    ctx.nontrivial += len(set(cell_key(c) for c in cells if c["skip"] > 0 or c["depth"] > 0 or c["site"] != "go" or c["ua"] != "none"))
+    ctx.nontrivial += len(set(cell_key(c) for c in cells if c["skip"] > 0 or c["depth"] > 0 or c["site"] != "go" or c["ua"] != "none"
+                              or c["route"] != "direct"))
+    route_cells = [c for c in cells if c["route"] != "direct" or c["ep"] in ROUTE_ONLY_EPS]
+    ctx.extra["front_end_cells"] = dict(cells=len(route_cells), entry_points=sorted(set(c["ep"] for c in route_cells)),
+                                        routes=sorted(set(c["route"] for c in route_cells)),
+                                        own_process=sum(1 for c in route_cells if c["ep"] in TERM_EPS),
+                                        full_table_entry_points_added=["stdlog.Panic", "stdlog.Panicf", "stdlog.Panicln"])
     ua_cells = [(c, d) for c, d in zip(cells, details) if c["ua"] != "none"]
     ua_seen = sum(1 for c, d in ua_cells if d.get("uaseen"))
     ctx.extra["user_attr_cells"] = dict(cells=len(ua_cells), attribute_found_in_the_record=ua_seen,
@@ -854,10 +892,39 @@ def site_table():
     t.append(("stdlog.Printf", "Std_Printf", 'c14Std.Printf("m")'))
     t.append(("stdlog.Println", "Std_Println", 'c14Std.Println(c14Args...)'))
     t.append(("stdlog.Output", "Std_Output", '_ = c14Std.Output(1, "m")'))
+    # the rest of the method set of the bridge's *log.Logger, and package log itself writing into the bridge
+    # (log.SetOutput(bridge.Writer())): Panic* panic after the record was written (c14drive recovers), Fatal* end the
+    # process (each such cell runs in a process of its own)
+    for v in STD_REST:
+        t.append(("stdlog." + v, "Std_" + v, std_call("c14Std", v)))
+    for v in ["Print", "Printf", "Println", "Output"] + STD_REST:
+        t.append(("log." + v, "Log_" + v, std_call("log", v)))
+    # log/slog front ends other than a verb of a log/slog.Logger: a Record the program built itself (own PC) handed to
+    # Handler.Handle (log/slog's wrapping pattern), and log/slog.NewLogLogger(handler, level).Print
+    t.append(("logslog.Handle", "Sl_Handle", 'c14HelperSL("m")'))
+    t.append(("logslog.std.Print", "SlStd_Print", 'c14Std.Print(c14Args...)'))
     return t
 
 
-def gen_sites():
+STD_REST = ["Panic", "Panicf", "Panicln", "Fatal", "Fatalf", "Fatalln"]
+
+
+def std_call(recv, v):
+    if v == "Output":
+        return '_ = %s.Output(1, "m")' % recv
+    return '%s.%s("m")' % (recv, v) if v.endswith("f") else '%s.%s(c14Args...)' % (recv, v)
+
+
+def site_flags(name):
+    v = name.split(".")[-1]
+    if name.startswith(("stdlog.", "log.")) and v.startswith("Panic"):
+        return ", pan: true"
+    if name.startswith(("stdlog.", "log.")) and v.startswith("Fatal"):
+        return ", term: true"
+    return ""
+
+
+def gen_sites(path=None):
     out = ["// Code generated by `python3 checks/c14.py gen-sites`; DO NOT EDIT.",
            "",
            "package main",
@@ -870,6 +937,7 @@ def gen_sites():
            "// call passes attributes of its own (c14KV / c14SLKV / c14SLAttrs: an attribute keyed `caller`).",
            "",
            "import (",
+           '\t"log"',
            '\tlogslog "log/slog"',
            "",
            '\t"github.com/hedzr/logg/slog"',
@@ -904,9 +972,9 @@ def gen_sites():
             out.append("}")
             out.append("")
             at = ", at: c14sA_%s" % ident
-        reg.append('\t"%s": {inl: [c14InlDepth + 1]func(){%s}, no: c14sN_%s%s},' % (name, ", ".join(chain), ident, at))
+        reg.append('\t"%s": {inl: [c14InlDepth + 1]func(){%s}, no: c14sN_%s%s%s},' % (name, ", ".join(chain), ident, at, site_flags(name)))
     reg.append("}")
-    path = os.path.join(os.path.dirname(HERE), "harness", "fam_caller_sites.go")
+    path = path or os.path.join(os.path.dirname(HERE), "harness", "fam_caller_sites.go")
     with open(path, "w") as fh:
         fh.write("\n".join(out + reg) + "\n")
     import subprocess
@@ -992,7 +1060,10 @@ def gen_line_sites(path=None):
 
 if __name__ == "__main__":
     if len(sys.argv) > 1 and sys.argv[1] == "gen-sites":
-        gen_sites()
-        gen_line_sites()
+        # (harness/ is compiled by every check: with a directory argument the two files are written there instead, to be
+        # moved in once they build together with the rest of the package)
+        d = sys.argv[2] if len(sys.argv) > 2 else None
+        gen_sites(os.path.join(d, "fam_caller_sites.go") if d else None)
+        gen_line_sites(os.path.join(d, "fam_caller_lines.go") if d else None)
     if len(sys.argv) > 2 and sys.argv[1] == "gen-line-sites":
         gen_line_sites(sys.argv[2])
